@@ -3,6 +3,9 @@
 #ifndef VP_C18_T
 #define VP_C18_T 0
 #endif
+#ifndef VP_C18_BASED
+#define VP_C18_BASED 0  // 1: roots with non-zero index bases and the re-indexing operations (reindexed, blocked) in the view programs
+#endif
 
 #include "../c01.hpp"
 #include "../operands.hpp"
@@ -265,12 +268,13 @@ struct C18Fin {
 
 template<int D>
 void run_d(Input const& in, Ctx& ctx) {
-	auto r = vp::decode_root<D, false>(in, ctx);
+	using Cfg = std::conditional_t<VP_C18_BASED != 0, vp::CfgBased, vp::CfgRaw>;
+	auto r = vp::decode_root<D, Cfg::based>(in, ctx);
 	if(r.N == 0) { ctx.label("root_empty_skipped"); return; }  // a view without elements has no message to check (and C01 owns the zero-element view algebra)
 	Plan plan{static_cast<int>(in.head(10) % NFORMS), static_cast<int>(in.head(11) % NFORMS), static_cast<int>(in.head(12) % 2U), static_cast<int>(in.head(13) % 2U), 1 + static_cast<int>(in.head(14) % 3U), static_cast<int>(in.head(17) % 7U), in.head(15), in.head(16), in.head(18)};
-	vp::with_root<vp::CfgRaw, ELEMT, D>(r, [&](auto& root, Model m, ELEMT const* base, long N) {
+	vp::with_root<Cfg, ELEMT, D>(r, [&](auto& root, Model m, ELEMT const* base, long N) {
 		C18Fin fin{base, N, plan, ctx};
-		vp::Interp<C18Fin, false, 4> interp(in, ctx, fin);
+		vp::Interp<C18Fin, Cfg::based, 4> interp(in, ctx, fin);
 		interp.null_root = (N == 0);
 		interp.step(root, m);
 	});
@@ -282,7 +286,7 @@ struct Prop {
 	static constexpr int H = 20, R = 4, MAXOPS = 8;
 	static void run(Input const& in, Ctx& ctx) {
 		ensure_mpi();
-		ctx.desc << kTName << " ";
+		ctx.desc << kTName << (VP_C18_BASED != 0 ? " (re-based) " : " ");
 		switch(in.head(1) % 4) {
 			case 0: run_d<1>(in, ctx); break;
 			case 1: run_d<2>(in, ctx); break;
